@@ -8,10 +8,11 @@ MANIFEST = dict(
               "tighten_baseline, handle_baseline_ratchet and the order of operations of runner.rs with the evaluated set explicit; tied by library-level "
               "differential execution and CLI history replay x restriction modes (--files subsets, fail-fast, ratchet by flag and by config)",
     text="Theorems C10_subset, C10_no_add_without_update, C10_auto_fixpoint, C10_stale_only_if_evaluated_and_resolved, C10_removed_only_if_stale, C10_strict_fails_only_for_resolved, C10_stale_needs_keyed_path "
-         "hold for every result list, evaluated set, baseline and flag set (unbounded). The tie compares stale paths, the tightened baseline file, exit "
+         "hold for every result list, evaluated set, baseline and flag set (unbounded); evaluated = paths of the content results of the run + counted directories (+ paths a scan saw gone): a structure result at the path of a file is not an evaluation of its line count (fix D85). The tie compares stale paths, the tightened baseline file, exit "
          "status and diagnostics of the real CLI with check_step on every step of the replayed histories and evaluates the C10 oracles on the observations.",
-    note="Trusted: Coq kernel, extraction, harness sgv-check, python evaluator of the universe. --diff / --staged restriction is not replayed here (it narrows the "
-         "file list exactly like --files but keeps the directory statistics; the model covers it through the evaluated-set argument).",
+    note="Trusted: Coq kernel, extraction, harness sgv-check, python evaluator of the universe. --diff is replayed in one shape only (a git repository, one other file changed, "
+         "structure results at the paths of the unchanged recorded files: fix D85); --staged is not replayed (it narrows the file list like --diff does and keeps the directory "
+         "statistics; the model covers both through the evaluated-set argument: content results + counted directories).",
     ref="5 (C10)")
 
 
@@ -71,6 +72,8 @@ def run(ctx):
     br = big_ratchet_phase(ctx, bins, model, 3 if ctx.tier == "quick" else 10)
     sd = subdir_ratchet_phase(ctx, bins, model, 8 if ctx.tier == "quick" else 40)
     nu = nonutf8_phase(ctx, bins, model)
+    sr = sibling_ratchet_phase(ctx, bins, model, ctx.tier == "quick")
+    ov = overlapping_runs_phase(ctx, bins, model)
     xcheck_model(ctx, model, 40 if ctx.tier == "quick" else 300)
     modes = {}
     for h in allh:
@@ -79,32 +82,37 @@ def run(ctx):
                 fl = o["flags"]
                 m = (fl.get("rc") or "-") + "/" + (fl.get("rg") or "-") + ("/files" if o.get("files") else "") + ("/ff" if is_ff(fl) else "")
                 modes[m] = modes.get(m, 0) + 1
-    ctx.cov["evaluations"] = lib["cases"] + hp["steps"] + br["steps"] + sd["steps"] + nu["steps"]
+    ctx.cov["evaluations"] = lib["cases"] + hp["steps"] + br["steps"] + sd["steps"] + nu["steps"] + sr["steps"] + ov["steps"]
     ctx.cov["distinct_nontrivial"] = hp["nontrivial"]
-    ctx.cov["traces_validated_against_impl"] = hp["steps"] + br["steps"] + sd["steps"] + nu["steps"] - len(hp["mismatches"]) - len(br["mismatches"]) - len(sd["mismatches"]) - len(nu["mismatches"])
+    ctx.cov["traces_validated_against_impl"] = hp["steps"] + br["steps"] + sd["steps"] + nu["steps"] + sr["steps"] - len(hp["mismatches"]) - len(br["mismatches"]) - len(sd["mismatches"]) - len(nu["mismatches"]) - len(sr["mismatches"])
     ctx.cov["rule"] = ("library level: check_baseline_ratchet / tighten_baseline on seeded result lists x baselines vs the extracted model; CLI level: histories (update, edits "
                        "resolving or adding violations, ratchet runs warn/auto/strict by flag and by [baseline] ratchet, x --files subsets incl. repeated and missing files, x fail-fast by "
                        "flag and config with 1..16 threads, x sub-path roots, x runs from a sub-directory pkg/ of the project (marker .sloc-guard.toml or .git above) with the relative `--baseline base.json` "
                        "and a same-named file at the project root: the file named is the one tightened, no other file appears or changes); paths that are not valid UTF-8 (two names with one lossy form) "
-                       "under --files x strict / auto; every auto run is rerun once for the fixpoint; large projects (40-60 files over the limit, more than 20 fixed at once) through strict / auto / auto / strict; observables: baseline file, stale paths in the diagnostics, exit. "
+                       "under --files x strict / auto; recorded files that lack the sibling a [[structure.rules]] siblings rule (severity warn / error) asks for, so that the structure block reports a result at the path of a "
+                       "file the file loop never counted - after a fail-fast short-circuit (one worker, new violators first / last / in the middle) and under `--diff HEAD~1` in a git repository where another file changed - x warn / auto / strict by flag and config, "
+                       "then the full check afterwards; every auto run is rerun once for the fixpoint; large projects (40-60 files over the limit, more than 20 fixed at once) through strict / auto / auto / strict; observables: baseline file, stale paths in the diagnostics, exit. "
                        "non-trivial = histories with at least one update, one edit and a non-empty baseline on disk at some step")
     ctx.cov["input_distribution"] = {"library": lib["dist"], "histories": dict(dist, corpus=len(corpus)), "cli_steps": hp["steps"], "cli_spawns": hp["spawns"],
                                      "ratchet_cli/cfg/restriction": modes, "fail_fast_steps": hp["ff_traces"],
                                      "large_project_steps(40-60 files, >20 entries resolved at once)": br["steps"],
-                                     "steps_run_from_a_sub_directory": sd["steps"], "steps_with_non_utf8_paths": nu["steps"]}
-    ctx.cov["model_vs_impl_mismatches"] = len(lib["mismatches"]) + len(hp["mismatches"]) + len(br["mismatches"]) + len(sd["mismatches"]) + len(nu["mismatches"])
+                                     "steps_run_from_a_sub_directory": sd["steps"], "steps_with_non_utf8_paths": nu["steps"],
+                                     "steps_with_a_structure_result_at_an_uncounted_file(fail-fast, --diff)": sr["steps"],
+                                     "steps_two_runs_on_one_baseline_file(overlapping: known finding; sequential both orders)": ov["steps"]}
+    ctx.cov["model_vs_impl_mismatches"] = len(lib["mismatches"]) + len(hp["mismatches"]) + len(br["mismatches"]) + len(sd["mismatches"]) + len(nu["mismatches"]) + len(sr["mismatches"])
     for s in lib["sample"][:1] + hp["sample"][:2]:
         ctx.sample(s)
     ctx.cov["trusted_base"] = TRUSTED_COMMON + ["python evaluator of the 5-file universe (compared with a plain run in every visited state)",
                                                 "parsing of the ratchet diagnostics on stderr (stale path list)"]
-    ctx.assumptions = ["--diff/--staged narrow the evaluated files like --files does (not replayed; covered by the evaluated-set argument of the model)",
-                       "baseline keys are relative to the working directory of the run; one baseline file is used from one working directory"]
+    ctx.assumptions = ["--diff/--staged narrow the files of the file loop and keep the structure block (one --diff shape replayed; otherwise covered by the evaluated-set argument of the model)",
+                       "baseline keys are relative to the working directory of the run; one baseline file is used from one working directory",
+                       "runs on one baseline file do not overlap in time: the theorems are about sequences of runs (two overlapping runs can lose an update: known finding K10_overlapping_runs_lost_update, D87)"]
     fails = [f for f in lib["oracle_failures"] if f["prop"] == "C10"]
     for f in fails[:3]:
         ctx.violation({"kind": "property-oracle", "what": f["what"], "first_mismatch": {"case": f["case"]}})
-    n = report_findings(ctx, "C10", hp["findings"] + br["findings"] + sd["findings"] + nu["findings"])
+    n = report_findings(ctx, "C10", hp["findings"] + br["findings"] + sd["findings"] + nu["findings"] + sr["findings"] + ov["findings"])
     if not fails and not n:
-        tie = lib["mismatches"] + hp["mismatches"] + hp["structural"] + br["mismatches"] + sd["mismatches"] + nu["mismatches"]
+        tie = lib["mismatches"] + hp["mismatches"] + hp["structural"] + br["mismatches"] + sd["mismatches"] + nu["mismatches"] + sr["mismatches"] + ov["mismatches"]
         report_tie(ctx, "C10", "sgv-check / sloc-guard check == extracted Check.Ratchet + Check.Baseline.check_step", tie, proofs_ok, lib["errs"])
 
 
